@@ -1,1 +1,1387 @@
-//! C07: not implemented yet.
+//! C07 — NTS sources ignore everything that is not authenticated.
+//!
+//! Engine E-SEQ + positional sweep. The subject is the real `NtpSource` created with
+//! `SourceNtsData`; a real `Server` with a real `KeySet` produces the genuine answers.
+//!
+//! 1. States: all event words over {T = timer/poll, G = genuine answer to the pending
+//!    request, A = advance 6 s (response window closes), R = authenticated RATE kiss}
+//!    up to a depth, deduplicated on the masked probe key (random identifiers masked).
+//!    Scenarios: negotiated NTPv4 / NTPv5 x 256 / 512-bit keys x cookies delivered by the
+//!    key exchange (8; thorough also 2, which makes the requests carry placeholders).
+//!    The source is not `Clone`: every state is rebuilt by replaying its word on a fresh
+//!    source; identifiers are read back from the request the source emitted.
+//! 2. At every state the complete injection alphabet X(state) is delivered, one datagram
+//!    after the other, to the live source (see `alphabet`): replays, the genuine answer
+//!    re-keyed, EVERY single-bit flip and EVERY truncation of the genuine answer, the
+//!    complete product grammar of unauthenticated v4 / v5 headers (KISS codes, strata,
+//!    poll values, flags, modes, versions) x UID placement x id match, authenticators under
+//!    wrong keys, authenticated datagrams with a wrong / missing / misplaced UID, cookie
+//!    fields outside the encrypted part, cross-session answers from the real server.
+//!    All datagrams are assembled at BYTE level by the harness.
+//!
+//! Oracle (independent of the decoder under test): `authentic(d)` = there is a live
+//! pending request, bytes 24..32 of d equal the request's origin timestamp / client
+//! cookie, and d contains an NTS authenticator field that the crate's `Cipher::decrypt`
+//! verifies under the session's S2C key with AAD = all bytes before it, such that the
+//! request's 32-byte unique identifier occurs in that AAD or in the decrypted plaintext.
+//! For every datagram that is NOT authentic: no action returned, the controller saw
+//! nothing, and the complete probe key (every field of the source incl. stash contents)
+//! is identical before and after. For an authentic datagram the cookies added to the stash
+//! must be exactly the cookie fields of the decrypted plaintext (or nothing at all).
+use std::collections::{BTreeMap, HashMap, HashSet};
+use std::net::{IpAddr, Ipv4Addr, SocketAddr};
+use std::sync::{Arc, Mutex, RwLock};
+use std::time::Duration;
+
+use super::common::{self, Ctx};
+
+/// Shared test rig of group gc (also used by c13.rs and c14.rs).
+pub(super) mod rig {
+    use std::collections::HashMap;
+    use std::net::{IpAddr, Ipv4Addr, SocketAddr};
+    use std::sync::{Arc, Mutex, RwLock};
+    use std::time::Duration;
+
+    use crate::algorithm::{Measurement, ObservableSourceTimedata, SourceController};
+    use crate::config::SourceConfig;
+    use crate::cookiestash::CookieStash;
+    use crate::keyset::{DecodedServerCookie, KeySet};
+    use crate::nts::AeadAlgorithm;
+    use crate::packet::{AesSivCmac256, AesSivCmac512, Cipher};
+    use crate::server::{
+        FilterAction, FilterList, Server, ServerAction, ServerConfig, ServerReason, ServerResponse,
+        ServerStatHandler,
+    };
+    use crate::source::verif_probe::gc as probe;
+    use crate::source::{NtpSource, NtpSourceAction, ProtocolVersion, SourceNtsData};
+    use crate::system::{NtpServerInfo, NtpSourceInfo};
+    use crate::time_types::{NtpDuration, NtpTimestamp, PollInterval, PollIntervalLimits};
+    use crate::{ClockId, NtpClock, NtpLeapIndicator, NtpVersion};
+
+    pub(crate) use probe::Key;
+
+    // ----------------------------------------------------------------- controller stub
+    #[derive(Debug)]
+    pub struct RecCtl {
+        pub log: Arc<Mutex<Vec<String>>>,
+        pub desired: PollInterval,
+    }
+    impl SourceController for RecCtl {
+        fn handle_measurement(&mut self, m: Measurement) {
+            self.log.lock().unwrap().push(format!(
+                "meas {:?}->{:?} s={:?} r={:?} rd={:?} rdisp={:?} leap={:?} prec={}",
+                m.sender_id, m.receiver_id, m.sender_ts, m.receiver_ts, m.root_delay, m.root_dispersion, m.leap, m.precision
+            ));
+        }
+        fn set_usable(&mut self, usable: bool) {
+            self.log.lock().unwrap().push(format!("usable {usable}"));
+        }
+        fn desired_poll_interval(&self) -> PollInterval {
+            self.desired
+        }
+        fn observe(&self) -> ObservableSourceTimedata {
+            ObservableSourceTimedata::default()
+        }
+    }
+
+    // ----------------------------------------------------------------- server side stubs
+    #[derive(Debug, Clone)]
+    pub struct FixedClock(pub NtpTimestamp);
+    impl NtpClock for FixedClock {
+        type Error = std::io::Error;
+        fn now(&self) -> Result<NtpTimestamp, Self::Error> {
+            Ok(self.0)
+        }
+        fn set_frequency(&self, _: f64) -> Result<NtpTimestamp, Self::Error> {
+            Ok(self.0)
+        }
+        fn get_frequency(&self) -> Result<f64, Self::Error> {
+            Ok(0.0)
+        }
+        fn step_clock(&self, _: NtpDuration) -> Result<NtpTimestamp, Self::Error> {
+            Ok(self.0)
+        }
+        fn disable_ntp_algorithm(&self) -> Result<(), Self::Error> {
+            Ok(())
+        }
+        fn error_estimate_update(&self, _: NtpDuration, _: NtpDuration) -> Result<(), Self::Error> {
+            Ok(())
+        }
+        fn status_update(&self, _: NtpLeapIndicator) -> Result<(), Self::Error> {
+            Ok(())
+        }
+    }
+    pub struct NoStats;
+    impl ServerStatHandler for NoStats {
+        fn register(&mut self, _: u8, _: bool, _: ServerReason, _: ServerResponse) {}
+    }
+
+    // ----------------------------------------------------------------- byte level tools
+    pub fn pad4(n: usize) -> usize {
+        (n + 3) & !3
+    }
+    /// NTPv4 style extension field: length = padded total, zero padded, at least `min`.
+    pub fn ef4(ty: u16, body: &[u8], min: usize) -> Vec<u8> {
+        let total = pad4(4 + body.len()).max(pad4(min));
+        let mut v = Vec::with_capacity(total);
+        v.extend_from_slice(&ty.to_be_bytes());
+        v.extend_from_slice(&(total as u16).to_be_bytes());
+        v.extend_from_slice(body);
+        v.resize(total, 0);
+        v
+    }
+    /// NTPv5 style extension field: length = 4 + body (unpadded), then zero padding to 4.
+    pub fn ef5(ty: u16, body: &[u8]) -> Vec<u8> {
+        let mut v = Vec::new();
+        v.extend_from_slice(&ty.to_be_bytes());
+        v.extend_from_slice(&((4 + body.len()) as u16).to_be_bytes());
+        v.extend_from_slice(body);
+        v.resize(pad4(v.len()), 0);
+        v
+    }
+    pub fn ef(v5: bool, ty: u16, body: &[u8], min: usize) -> Vec<u8> {
+        if v5 { ef5(ty, body) } else { ef4(ty, body, min) }
+    }
+    pub const T_UID: u16 = 0x0104;
+    pub const T_COOKIE: u16 = 0x0204;
+    pub const T_PLACEHOLDER: u16 = 0x0304;
+    pub const T_AUTH: u16 = 0x0404;
+    pub const T_DRAFT: u16 = 0xF5FF;
+    pub const T_REFREQ: u16 = 0xF503;
+    pub const DRAFT: &[u8] = b"draft-ietf-ntp-ntpv5-09";
+
+    /// One extension field as found by the harness-side walker.
+    #[derive(Clone, Debug)]
+    pub struct Field {
+        pub off: usize,
+        pub ty: u16,
+        pub len: usize,
+        pub body: Vec<u8>,
+    }
+    /// Lenient walker: fields from `start` until the framing stops making sense. Returns
+    /// the fields and the offset where the walk stopped.
+    pub fn walk(data: &[u8], start: usize) -> (Vec<Field>, usize) {
+        let mut out = Vec::new();
+        let mut off = start;
+        while off + 4 <= data.len() {
+            let ty = u16::from_be_bytes([data[off], data[off + 1]]);
+            let len = u16::from_be_bytes([data[off + 2], data[off + 3]]) as usize;
+            if len < 4 || off + len > data.len() {
+                break;
+            }
+            out.push(Field { off, ty, len, body: data[off + 4..off + len].to_vec() });
+            off += pad4(len);
+        }
+        (out, off.min(data.len()))
+    }
+
+    /// Build an NTS authenticator field over `aad` with `plaintext` (RFC 8915 §5.6).
+    pub fn authenticator(cipher: &dyn Cipher, aad: &[u8], plaintext: &[u8]) -> Vec<u8> {
+        let mut buf = vec![0u8; plaintext.len() + 64];
+        buf[..plaintext.len()].copy_from_slice(plaintext);
+        let r = cipher.encrypt(&mut buf, plaintext.len(), aad).expect("encrypt");
+        let nonce = buf[..r.nonce_length].to_vec();
+        let ct = buf[r.nonce_length..r.nonce_length + r.ciphertext_length].to_vec();
+        let mut body = Vec::new();
+        body.extend_from_slice(&(nonce.len() as u16).to_be_bytes());
+        body.extend_from_slice(&(ct.len() as u16).to_be_bytes());
+        body.extend_from_slice(&nonce);
+        body.resize(pad4(body.len()), 0);
+        body.extend_from_slice(&ct);
+        body.resize(pad4(body.len()), 0);
+        let mut v = Vec::new();
+        v.extend_from_slice(&T_AUTH.to_be_bytes());
+        v.extend_from_slice(&((4 + body.len()) as u16).to_be_bytes());
+        v.extend_from_slice(&body);
+        v
+    }
+
+    /// Try to open an authenticator framed at `off`; AAD = data[..off].
+    pub fn open_at(cipher: &dyn Cipher, data: &[u8], off: usize) -> Option<Vec<u8>> {
+        if off + 8 > data.len() || data[off] != 0x04 || data[off + 1] != 0x04 {
+            return None;
+        }
+        let len = u16::from_be_bytes([data[off + 2], data[off + 3]]) as usize;
+        if len < 8 || off + len > data.len() {
+            return None;
+        }
+        let nl = u16::from_be_bytes([data[off + 4], data[off + 5]]) as usize;
+        let cl = u16::from_be_bytes([data[off + 6], data[off + 7]]) as usize;
+        let body = &data[off + 8..off + len];
+        let nonce = body.get(..nl)?;
+        let ct = body.get(pad4(nl)..pad4(nl) + cl)?;
+        cipher.decrypt(nonce, ct, &data[..off]).ok()
+    }
+
+    /// All (offset, plaintext) of authenticators that verify under `cipher`.
+    pub fn open_all(cipher: &dyn Cipher, data: &[u8]) -> Vec<(usize, Vec<u8>)> {
+        let mut v = Vec::new();
+        let mut off = 48;
+        while off + 8 <= data.len() {
+            if let Some(p) = open_at(cipher, data, off) {
+                v.push((off, p));
+            }
+            off += 4;
+        }
+        v
+    }
+
+    pub fn contains(hay: &[u8], needle: &[u8]) -> bool {
+        !needle.is_empty() && hay.windows(needle.len()).any(|w| w == needle)
+    }
+
+    /// Cookie fields of a decrypted plaintext, `None` if the plaintext is not a clean
+    /// sequence of fields.
+    pub fn plaintext_cookies(pt: &[u8]) -> Option<Vec<Vec<u8>>> {
+        let (fields, end) = walk(pt, 0);
+        if end != pt.len() {
+            return None;
+        }
+        Some(fields.into_iter().filter(|f| f.ty == T_COOKIE).map(|f| f.body).collect())
+    }
+
+    #[allow(clippy::too_many_arguments)]
+    pub fn hdr4(li: u8, vn: u8, mode: u8, stratum: u8, poll: u8, refid: [u8; 4], reft: [u8; 8], org: [u8; 8]) -> Vec<u8> {
+        let mut h = vec![0u8; 48];
+        h[0] = (li << 6) | ((vn & 7) << 3) | (mode & 7);
+        h[1] = stratum;
+        h[2] = poll;
+        h[3] = 0xEC; // precision -20
+        h[4..8].copy_from_slice(&[0, 0, 1, 0]);
+        h[8..12].copy_from_slice(&[0, 0, 2, 0]);
+        h[12..16].copy_from_slice(&refid);
+        h[16..24].copy_from_slice(&reft);
+        h[24..32].copy_from_slice(&org);
+        h[32..40].copy_from_slice(&[0, 0, 0, 100, 0, 0, 0, 0]);
+        h[40..48].copy_from_slice(&[0, 0, 0, 101, 0, 0, 0, 0]);
+        h
+    }
+    pub fn hdr5(li: u8, mode: u8, stratum: u8, poll: u8, flags: u8, server_cookie: [u8; 8], client_cookie: [u8; 8]) -> Vec<u8> {
+        let mut h = vec![0u8; 48];
+        h[0] = (li << 6) | (5 << 3) | (mode & 7);
+        h[1] = stratum;
+        h[2] = poll;
+        h[3] = 0xEC;
+        h[4..8].copy_from_slice(&[0, 0, 1, 0]);
+        h[8..12].copy_from_slice(&[0, 0, 2, 0]);
+        h[12] = 0; // timescale UTC
+        h[13] = 0; // era
+        h[14] = 0;
+        h[15] = flags;
+        h[16..24].copy_from_slice(&server_cookie);
+        h[24..32].copy_from_slice(&client_cookie);
+        h[32..40].copy_from_slice(&[0, 0, 0, 100, 0, 0, 0, 0]);
+        h[40..48].copy_from_slice(&[0, 0, 0, 101, 0, 0, 0, 0]);
+        h
+    }
+
+    // ----------------------------------------------------------------- session
+    #[derive(Clone, Copy, Debug, PartialEq, Eq)]
+    pub struct Cfg {
+        pub pv: ProtocolVersion,
+        pub k512: bool,
+    }
+    impl Cfg {
+        pub fn v5(&self) -> bool {
+            // what the source puts on the wire for an NTS session
+            !matches!(self.pv, ProtocolVersion::V4)
+        }
+        pub fn name(&self) -> String {
+            let v = match self.pv {
+                ProtocolVersion::V4 => "v4",
+                ProtocolVersion::V5 => "v5",
+                ProtocolVersion::UpgradedToV5 => "up5",
+                ProtocolVersion::V4UpgradingToV5 { .. } => "v4up",
+            };
+            format!("{v}-{}", if self.k512 { 512 } else { 256 })
+        }
+        pub fn parse(s: &str) -> Option<Cfg> {
+            let (v, k) = s.split_once('-')?;
+            let pv = match v {
+                "v4" => ProtocolVersion::V4,
+                "v5" => ProtocolVersion::V5,
+                "up5" => ProtocolVersion::UpgradedToV5,
+                "v4up" => ProtocolVersion::v4_upgrading_to_v5_with_default_tries(),
+                _ => return None,
+            };
+            Some(Cfg { pv, k512: k == "512" })
+        }
+    }
+
+    pub fn cipher(k512: bool, fill: u8) -> Box<dyn Cipher> {
+        if k512 {
+            Box::new(AesSivCmac512::new([fill; 64].into()))
+        } else {
+            Box::new(AesSivCmac256::new([fill; 32].into()))
+        }
+    }
+    pub const C2S: u8 = 0x11;
+    pub const S2C: u8 = 0x22;
+
+    pub fn decoded(k512: bool, s2c: u8, c2s: u8) -> DecodedServerCookie {
+        DecodedServerCookie {
+            algorithm: if k512 { AeadAlgorithm::AeadAesSivCmac512 } else { AeadAlgorithm::AeadAesSivCmac256 },
+            s2c: cipher(k512, s2c),
+            c2s: cipher(k512, c2s),
+        }
+    }
+
+    pub fn server_config(deny_all: bool) -> ServerConfig {
+        ServerConfig {
+            denylist: FilterList {
+                filter: if deny_all { vec!["0.0.0.0/0".parse().unwrap()] } else { vec![] },
+                action: FilterAction::Deny,
+            },
+            allowlist: FilterList { filter: vec!["0.0.0.0/0".parse().unwrap()], action: FilterAction::Ignore },
+            rate_limiting_cutoff: Duration::from_millis(0),
+            rate_limiting_cache_size: 0,
+            require_nts: None,
+            accepted_versions: vec![NtpVersion::V3, NtpVersion::V4, NtpVersion::V5],
+        }
+    }
+
+    pub fn mk_server(keyset: Arc<KeySet>, deny_all: bool) -> Server<FixedClock> {
+        let mut info = NtpServerInfo::default();
+        info.ntp_snapshot.stratum = 2;
+        info.time_snapshot.leap_indicator = NtpLeapIndicator::NoWarning;
+        Server::new_internal(
+            server_config(deny_all),
+            FixedClock(NtpTimestamp::from_fixed_int(0x0000_0065_0000_0000)),
+            Arc::new(RwLock::new(info)),
+            keyset,
+        )
+    }
+
+    pub fn serve(server: &mut Server<FixedClock>, req: &[u8]) -> Option<Vec<u8>> {
+        let mut buf = [0u8; 2048];
+        match server.handle(
+            IpAddr::V4(Ipv4Addr::new(10, 0, 0, 1)),
+            NtpTimestamp::from_fixed_int(0x0000_0064_0000_0000),
+            req,
+            &mut buf,
+            &mut NoStats,
+        ) {
+            ServerAction::Ignore => None,
+            ServerAction::Respond { message } => Some(message.to_vec()),
+        }
+    }
+
+    #[derive(Clone, Debug, PartialEq, Eq)]
+    pub enum Out {
+        Send(Vec<u8>, Duration),
+        Reset,
+        Demobilize,
+        Other(String),
+        /// the code under test panicked (= the daemon would abort)
+        Panic(String),
+    }
+
+    pub fn fmt_actions(it: impl Iterator<Item = NtpSourceAction>) -> Vec<String> {
+        it.map(|a| match a {
+            NtpSourceAction::Send(b) => format!("Send({})", b.len()),
+            NtpSourceAction::SetTimer(d) => format!("SetTimer({d:?})"),
+            NtpSourceAction::Reset => "Reset".to_string(),
+            NtpSourceAction::Demobilize => "Demobilize".to_string(),
+        })
+        .collect()
+    }
+
+    #[derive(Clone, Debug)]
+    pub struct Exchange {
+        pub req: Vec<u8>,
+        pub uid: Option<[u8; 32]>,
+        /// bytes the answer must carry at 24..32 (v4: our transmit timestamp, v5: client cookie)
+        pub id8: [u8; 8],
+        pub genuine: Option<Vec<u8>>,
+        pub delivered: bool,
+    }
+
+    pub struct Rig {
+        pub cfg: Cfg,
+        pub src: NtpSource<RecCtl>,
+        pub log: Arc<Mutex<Vec<String>>>,
+        pub keyset: Arc<KeySet>,
+        pub server: Server<FixedClock>,
+        pub deny_server: Server<FixedClock>,
+        pub c2s: Box<dyn Cipher>,
+        pub s2c: Box<dyn Cipher>,
+        pub exchanges: Vec<Exchange>,
+        pub terminal: Option<String>,
+        pub limits: PollIntervalLimits,
+    }
+
+    pub fn request_ids(v5: bool, req: &[u8]) -> (Option<[u8; 32]>, [u8; 8]) {
+        let mut id8 = [0u8; 8];
+        if req.len() >= 48 {
+            if v5 {
+                id8.copy_from_slice(&req[24..32]);
+            } else {
+                id8.copy_from_slice(&req[40..48]);
+            }
+        }
+        let uid = walk(req, 48).0.into_iter().find(|f| f.ty == T_UID && f.body.len() >= 32).map(|f| {
+            let mut u = [0u8; 32];
+            u.copy_from_slice(&f.body[..32]);
+            u
+        });
+        (uid, id8)
+    }
+
+    impl Rig {
+        /// A fresh NTS source holding `cookies` (oldest first), or a plain source if `None`.
+        pub fn with_cookies(cfg: Cfg, cookies: Option<Vec<Vec<u8>>>, limits: PollIntervalLimits, desired: PollInterval) -> Rig {
+            let keyset = Arc::new(KeySet::new());
+            let log = Arc::new(Mutex::new(Vec::new()));
+            let nts = cookies.map(|cs| {
+                let mut stash = CookieStash::default();
+                for c in cs {
+                    stash.store(c);
+                }
+                Box::new(SourceNtsData { cookies: stash, c2s: cipher(cfg.k512, C2S), s2c: cipher(cfg.k512, S2C) })
+            });
+            let info = NtpSourceInfo { ip_list: Arc::from(Vec::<IpAddr>::new()), server_id: Default::default(), local_stratum: 16 };
+            let (src, _init) = NtpSource::new(
+                SocketAddr::new(IpAddr::V4(Ipv4Addr::new(10, 0, 0, 2)), 123),
+                SourceConfig { poll_interval_limits: limits, initial_poll_interval: limits.min },
+                cfg.pv,
+                RecCtl { log: log.clone(), desired },
+                nts,
+                crate::ClockId(7),
+                Arc::new(RwLock::new(info)),
+                Arc::new(Mutex::new(HashMap::new())),
+            );
+            Rig {
+                cfg,
+                src,
+                log,
+                server: mk_server(keyset.clone(), false),
+                deny_server: mk_server(keyset.clone(), true),
+                keyset,
+                c2s: cipher(cfg.k512, C2S),
+                s2c: cipher(cfg.k512, S2C),
+                exchanges: Vec::new(),
+                terminal: None,
+                limits,
+            }
+        }
+
+        /// NTS source with `n` genuine server cookies of this session.
+        pub fn nts(cfg: Cfg, n: usize) -> Rig {
+            let ks = KeySet::new();
+            let d = decoded(cfg.k512, S2C, C2S);
+            let cookies = (0..n).map(|_| ks.encode_cookie(&d)).collect();
+            let l = PollIntervalLimits::default();
+            Rig::with_cookies(cfg, Some(cookies), l, l.min)
+        }
+
+        pub fn server_cookie(&self) -> Vec<u8> {
+            self.keyset.encode_cookie(&decoded(self.cfg.k512, S2C, C2S))
+        }
+
+        pub fn key(&self) -> Key {
+            probe::key(&self.src)
+        }
+
+        pub fn timer(&mut self) -> Out {
+            let acts: Vec<NtpSourceAction> = match crate::verif::common::catch(|| self.src.handle_timer().collect()) {
+                Ok(a) => a,
+                Err(e) => return Out::Panic(e),
+            };
+            let mut send = None;
+            let mut timer = None;
+            for a in &acts {
+                match a {
+                    NtpSourceAction::Send(b) => send = Some(b.clone()),
+                    NtpSourceAction::SetTimer(d) => timer = Some(*d),
+                    NtpSourceAction::Reset => return Out::Reset,
+                    NtpSourceAction::Demobilize => return Out::Demobilize,
+                }
+            }
+            match (send, timer) {
+                (Some(b), Some(d)) if acts.len() == 2 => {
+                    let (uid, id8) = request_ids(self.cfg.v5(), &b);
+                    let genuine = serve(&mut self.server, &b);
+                    self.exchanges.push(Exchange { req: b.clone(), uid, id8, genuine, delivered: false });
+                    Out::Send(b, d)
+                }
+                _ => Out::Other(format!("{:?}", fmt_actions(acts.into_iter()))),
+            }
+        }
+
+        pub fn incoming(&mut self, d: &[u8]) -> Vec<String> {
+            fmt_actions(self.src.handle_incoming(
+                d,
+                NtpTimestamp::from_fixed_int(0x0000_0063_8000_0000),
+                NtpTimestamp::from_fixed_int(0x0000_0066_8000_0000),
+            ))
+        }
+
+        pub fn log_len(&self) -> usize {
+            self.log.lock().unwrap().len()
+        }
+        pub fn log_from(&self, n: usize) -> Vec<String> {
+            self.log.lock().unwrap()[n..].to_vec()
+        }
+    }
+}
+
+use rig::*;
+
+use crate::source::ProtocolVersion;
+
+// ------------------------------------------------------------------------- history events
+#[derive(Clone, Copy, PartialEq, Eq, Debug, Hash)]
+enum Ev {
+    /// poll timer fires
+    T,
+    /// the real server's answer to the pending request arrives
+    G,
+    /// 6 s pass (the 5 s response window closes)
+    A,
+    /// an authenticated RATE kiss for the pending request arrives
+    R,
+}
+const EVS: [Ev; 4] = [Ev::T, Ev::G, Ev::A, Ev::R];
+
+fn word_str(w: &[Ev]) -> String {
+    w.iter()
+        .map(|e| match e {
+            Ev::T => 'T',
+            Ev::G => 'G',
+            Ev::A => 'A',
+            Ev::R => 'R',
+        })
+        .collect()
+}
+fn parse_word(s: &str) -> Option<Vec<Ev>> {
+    s.chars()
+        .map(|c| match c {
+            'T' => Some(Ev::T),
+            'G' => Some(Ev::G),
+            'A' => Some(Ev::A),
+            'R' => Some(Ev::R),
+            _ => None,
+        })
+        .collect()
+}
+
+/// The exchange whose request is pending and still inside its window.
+fn live(rig: &Rig, k: &Key) -> Option<Exchange> {
+    match &k.pending {
+        Some((_, left)) if *left >= 0 => rig.exchanges.last().cloned(),
+        _ => None,
+    }
+}
+
+/// Split a genuine answer at its (first verifying) authenticator.
+fn split(rig: &Rig, gen_: &[u8]) -> Option<(Vec<u8>, Vec<u8>, Vec<u8>)> {
+    let (off, pt) = open_all(&*rig.s2c, gen_).into_iter().next()?;
+    let len = u16::from_be_bytes([gen_[off + 2], gen_[off + 3]]) as usize;
+    Some((gen_[..off].to_vec(), pt, gen_[off + pad4(len)..].to_vec()))
+}
+
+fn kiss_variant(rig: &Rig, pre: &[u8], code: &str, own_poll: i8) -> Option<Vec<u8>> {
+    let mut p = pre.to_vec();
+    p[1] = 0; // stratum 0
+    if rig.cfg.v5() {
+        // v5: RATE = larger poll, DENY = poll 127, NTSN = authnak flag
+        match code {
+            "RATE" => p[2] = (own_poll + 1) as u8,
+            "DENY" => p[2] = 127,
+            "NTSN" => {
+                p[2] = 0;
+                p[15] |= 4
+            }
+            "NONE" => p[2] = 0,
+            _ => return None,
+        }
+    } else {
+        p[12..16].copy_from_slice(code.as_bytes());
+    }
+    Some(p)
+}
+
+fn apply(rig: &mut Rig, ev: Ev) -> impl std::future::Future<Output = bool> + '_ {
+    async move {
+        if rig.terminal.is_some() {
+            return false;
+        }
+        let k = rig.key();
+        match ev {
+            Ev::T => {
+                match rig.timer() {
+                    Out::Send(..) => {}
+                    o => rig.terminal = Some(format!("{o:?}")),
+                }
+                true
+            }
+            Ev::G => {
+                let Some(x) = live(rig, &k) else { return false };
+                if x.delivered {
+                    return false;
+                }
+                let Some(g) = x.genuine else { return false };
+                rig.incoming(&g);
+                rig.exchanges.last_mut().unwrap().delivered = true;
+                true
+            }
+            Ev::A => {
+                if live(rig, &k).is_none() {
+                    return false;
+                }
+                tokio::time::advance(Duration::from_secs(6)).await;
+                true
+            }
+            Ev::R => {
+                let Some(x) = live(rig, &k) else { return false };
+                let Some(g) = x.genuine else { return false };
+                let Some((pre, _pt, _post)) = split(rig, &g) else { return false };
+                let Some(p) = kiss_variant(rig, &pre, "RATE", k.last_poll) else { return false };
+                let mut d = p.clone();
+                d.extend(authenticator(&*rig.s2c, &p, &[]));
+                rig.incoming(&d);
+                true
+            }
+        }
+    }
+}
+
+/// Scenario = session configuration + number of cookies the key exchange delivered.
+type Scn = (Cfg, usize);
+fn scn_name(s: Scn) -> String {
+    format!("{}:{}", s.0.name(), s.1)
+}
+fn parse_scn(t: &str) -> Option<Scn> {
+    match t.split_once(':') {
+        Some((c, f)) => Some((Cfg::parse(c)?, f.parse().ok()?)),
+        None => Some((Cfg::parse(t)?, 8)),
+    }
+}
+
+async fn build(scn: Scn, word: &[Ev]) -> Option<Rig> {
+    let mut rig = Rig::nts(scn.0, scn.1);
+    for e in word {
+        if !apply(&mut rig, *e).await {
+            return None;
+        }
+    }
+    Some(rig)
+}
+
+type Masked = (String, i8, i8, Option<bool>, bool, u8, String, u8, usize, usize, (bool, u16, bool), bool);
+fn masked(rig: &Rig, k: &Key) -> Masked {
+    (
+        k.version.clone(),
+        k.last_poll,
+        k.remote_min_poll,
+        k.pending.as_ref().map(|(_, l)| *l >= 0),
+        k.deny,
+        k.stratum,
+        k.refid.clone(),
+        k.reach,
+        // `tries` is only ever compared with STARTUP_TRIES_THRESHOLD (3)
+        k.tries.min(3),
+        k.cookies.as_ref().map_or(0, |c| c.len()),
+        (k.bloom_last.is_some(), k.bloom_next, k.bloom_filled),
+        rig.terminal.is_some(),
+    )
+}
+
+fn diff(a: &Key, b: &Key) -> Vec<&'static str> {
+    let mut v = Vec::new();
+    macro_rules! d {
+        ($f:ident) => {
+            if a.$f != b.$f {
+                v.push(stringify!($f));
+            }
+        };
+    }
+    d!(version);
+    d!(last_poll);
+    d!(remote_min_poll);
+    d!(pending);
+    d!(deny);
+    d!(stratum);
+    d!(refid);
+    d!(reach);
+    d!(tries);
+    d!(cookies);
+    d!(ring);
+    d!(bloom_bytes);
+    d!(bloom_last);
+    d!(bloom_next);
+    d!(bloom_filled);
+    d!(buffer);
+    d!(snapshot);
+    d!(config);
+    d!(addr);
+    v
+}
+
+// ------------------------------------------------------------------------- the oracle
+struct Auth {
+    /// cookie fields of the decrypted plaintext(s), `None` if a plaintext is malformed
+    cookies: Option<Vec<Vec<u8>>>,
+}
+
+/// `Some` iff `d` is authenticated under the S2C key and bound to the live pending request.
+fn authentic(rig: &Rig, d: &[u8], pend: Option<&Exchange>) -> Option<Auth> {
+    let x = pend?;
+    let uid = x.uid?;
+    if d.len() < 48 || d[24..32] != x.id8 {
+        return None;
+    }
+    let opened = open_all(&*rig.s2c, d);
+    let bound = opened.iter().any(|(off, pt)| contains(&d[48..*off], &uid) || contains(pt, &uid));
+    if !bound {
+        return None;
+    }
+    let mut cookies = Some(Vec::new());
+    for (_, pt) in &opened {
+        match (plaintext_cookies(pt), cookies.as_mut()) {
+            (Some(c), Some(all)) => all.extend(c),
+            _ => cookies = None,
+        }
+    }
+    Some(Auth { cookies })
+}
+
+// ------------------------------------------------------------------------- injection alphabet
+const UPGRADE_TS: [u8; 8] = *b"NTP5DRFT";
+
+/// The complete injection alphabet for the current state of `rig`. Every datagram is
+/// built from the bytes of the request the source emitted and of the real server's
+/// answer; descriptors are stable so that a replay can find the same datagram again.
+fn alphabet(rig: &Rig, k: &Key, all_bits: bool) -> Vec<(String, Vec<u8>)> {
+    let mut out: Vec<(String, Vec<u8>)> = Vec::new();
+    let v5 = rig.cfg.v5();
+    let last = rig.exchanges.last().cloned();
+    let uid = last.as_ref().and_then(|x| x.uid).unwrap_or([0x5a; 32]);
+    let id8 = last.as_ref().map(|x| x.id8).unwrap_or([0; 8]);
+    let mut bad_id8 = id8;
+    bad_id8[7] ^= 1;
+    let wrong_uid = [0xabu8; 32];
+    let own = k.last_poll;
+
+    // --- (1) header grammars, no authenticator at all -----------------------------------
+    for vn in [3u8, 4] {
+        for mode in [4u8, 3, 1, 2, 5] {
+            for stratum in [0u8, 1, 16, 17] {
+                for code in ["RATE", "DENY", "RSTR", "NTSN", "XXXX", "\0\0\0\0"] {
+                    for (ul, u) in [("none", None), ("ok", Some(uid)), ("wrong", Some(wrong_uid))] {
+                        for (il, i) in [("ok", id8), ("bad", bad_id8)] {
+                            for (rl, reft) in [("0", [0u8; 8]), ("up", UPGRADE_TS)] {
+                                let mut refid = [0u8; 4];
+                                refid.copy_from_slice(code.as_bytes());
+                                let mut d = hdr4(0, vn, mode, stratum, own as u8, refid, reft, i);
+                                if let Some(u) = u {
+                                    d.extend(ef4(T_UID, &u, 28));
+                                }
+                                out.push((
+                                    format!("k4:vn{vn},m{mode},s{stratum},c{},uid={ul},id={il},rt={rl}", code.trim_matches('\0')),
+                                    d,
+                                ));
+                            }
+                        }
+                    }
+                }
+            }
+        }
+    }
+    for vn in [1u8, 2, 6, 7, 0] {
+        let mut d = hdr4(0, vn, 4, 0, own as u8, *b"DENY", [0; 8], id8);
+        d.extend(ef4(T_UID, &uid, 28));
+        out.push((format!("k4:vn{vn},m4,s0,cDENY,uid=ok,id=ok,rt=0"), d));
+    }
+    let polls: [u8; 8] = [0, (own - 1) as u8, own as u8, (own + 1) as u8, 126, 127, 128, 255];
+    for mode in [4u8, 3] {
+        for stratum in [0u8, 1, 16, 17] {
+            for poll in polls {
+                for flags in 0u8..8 {
+                    for (ul, u) in [("none", None), ("ok", Some(uid)), ("wrong", Some(wrong_uid))] {
+                        for (il, i) in [("ok", id8), ("bad", bad_id8)] {
+                            let mut d = hdr5(0, mode, stratum, poll, flags, *b"DENYDENY", i);
+                            if let Some(u) = u {
+                                d.extend(ef5(T_UID, &u));
+                            }
+                            d.extend(ef5(T_DRAFT, DRAFT));
+                            out.push((format!("k5:m{mode},s{stratum},p{poll},f{flags},uid={ul},id={il}"), d));
+                        }
+                    }
+                }
+            }
+        }
+    }
+    {
+        // v5 without the draft identification field, and with the uid after it
+        let mut d = hdr5(0, 4, 0, 127, 4, [0; 8], id8);
+        d.extend(ef5(T_UID, &uid));
+        out.push(("k5:nodraft,s0,p127,f4,uid=ok,id=ok".into(), d));
+        let mut d = hdr5(0, 4, 0, 127, 4, [0; 8], id8);
+        d.extend(ef5(T_DRAFT, DRAFT));
+        d.extend(ef5(T_UID, &uid));
+        out.push(("k5:draftfirst,s0,p127,f4,uid=ok,id=ok".into(), d));
+    }
+
+    // --- (2) replays of every genuine answer of this history --------------------------------
+    for (i, x) in rig.exchanges.iter().enumerate() {
+        if let Some(g) = &x.genuine {
+            out.push((format!("replay:{i}"), g.clone()));
+        }
+    }
+
+    let Some(x) = last else { return out };
+    let Some(gen_) = x.genuine.clone() else { return out };
+    let Some((pre, pt, post)) = split(rig, &gen_) else { return out };
+    let hdr = gen_[..48].to_vec();
+    let draft = if v5 { ef5(T_DRAFT, DRAFT) } else { vec![] };
+    let rand_key = cipher(rig.cfg.k512, 0x33);
+    let other_len = cipher(!rig.cfg.k512, S2C);
+    let keys: [(&str, &dyn crate::packet::Cipher); 3] = [("c2s", &*rig.c2s), ("rand", &*rand_key), ("otherlen", &*other_len)];
+
+    // --- (3) genuine answer re-keyed ---------------------------------------------------------
+    for (kl, key) in keys {
+        let mut d = pre.clone();
+        d.extend(authenticator(key, &pre, &pt));
+        d.extend(&post);
+        out.push((format!("rekey:{kl}"), d));
+    }
+
+    // --- (4) positional sweep over the genuine answer ------------------------------------------
+    for bit in 0..gen_.len() * 8 {
+        if !all_bits && bit % 8 != (bit / 8) % 8 {
+            continue;
+        }
+        let mut d = gen_.clone();
+        d[bit / 8] ^= 0x80 >> (bit % 8);
+        out.push((format!("flip:{bit}"), d));
+    }
+    for n in 0..gen_.len() {
+        out.push((format!("trunc:{n}"), gen_[..n].to_vec()));
+    }
+
+    // --- (5) authenticators under the wrong key over kiss headers -----------------------------
+    let codes: &[&str] = if v5 { &["RATE", "DENY", "NTSN", "NONE"] } else { &["RATE", "DENY", "RSTR", "NTSN", "XXXX"] };
+    for code in codes {
+        if let Some(p) = kiss_variant(rig, &pre, code, own) {
+            for (kl, key) in keys {
+                let mut d = p.clone();
+                d.extend(authenticator(key, &p, &[]));
+                out.push((format!("badauth-kiss:{code}:{kl}"), d));
+            }
+        }
+    }
+
+    // --- (6) correctly keyed, but not bound to the pending request -------------------------------
+    {
+        // no uid anywhere in the authenticated part; uid only AFTER the authenticator
+        let mut p = hdr.clone();
+        p.extend(&draft);
+        let mut d = p.clone();
+        d.extend(authenticator(&*rig.s2c, &p, &pt));
+        out.push(("s2c:nouid".into(), d.clone()));
+        d.extend(ef(v5, T_UID, &uid, 28));
+        out.push(("s2c:uid-after-auth".into(), d));
+        for code in codes {
+            if let Some(mut p) = kiss_variant(rig, &hdr, code, own) {
+                p.extend(&draft);
+                let mut d = p.clone();
+                d.extend(authenticator(&*rig.s2c, &p, &[]));
+                d.extend(ef(v5, T_UID, &uid, 28));
+                out.push((format!("s2c:kiss-{code}-uid-after-auth"), d));
+            }
+        }
+        // wrong uid inside the authenticated part
+        let mut alts = vec![("const", wrong_uid)];
+        if rig.exchanges.len() >= 2 {
+            if let Some(u) = rig.exchanges[rig.exchanges.len() - 2].uid {
+                alts.push(("previous", u));
+            }
+        }
+        for (al, alt) in alts {
+            let mut p = hdr.clone();
+            p.extend(ef(v5, T_UID, &alt, 16));
+            p.extend(&draft);
+            let mut d = p.clone();
+            d.extend(authenticator(&*rig.s2c, &p, &pt));
+            out.push((format!("s2c:wrong-uid-{al}"), d.clone()));
+            d.extend(ef(v5, T_UID, &uid, 28));
+            out.push((format!("s2c:wrong-uid-{al}+uid-after-auth"), d));
+        }
+        // right uid, wrong origin timestamp / client cookie
+        let mut p = pre.clone();
+        p[24..32].copy_from_slice(&bad_id8);
+        let mut d = p.clone();
+        d.extend(authenticator(&*rig.s2c, &p, &pt));
+        out.push(("s2c:wrong-id8".into(), d));
+    }
+
+    // --- (7) real server, other session / not-acknowledge ------------------------------------------
+    {
+        // the attacker's own NTS session asks the real server for an answer carrying the
+        // victim's uid and origin timestamp
+        let att = decoded(rig.cfg.k512, 0x44, 0x55);
+        let att_cookie = rig.keyset.encode_cookie(&att);
+        let mut p = x.req[..48].to_vec();
+        p.extend(ef(v5, T_UID, &uid, 16));
+        p.extend(ef(v5, T_COOKIE, &att_cookie, 16));
+        p.extend(&draft);
+        let mut d = p.clone();
+        d.extend(authenticator(&*att.c2s, &p, &[]));
+        let mut srv = mk_server(rig.keyset.clone(), false);
+        if let Some(a) = serve(&mut srv, &d) {
+            out.push(("real:cross-session".into(), a));
+        }
+        // the real server's NTS NAK for a corrupted copy of the request
+        let mut bad = x.req.clone();
+        let n = bad.len();
+        bad[n - 1] ^= 1;
+        if let Some(a) = serve(&mut srv, &bad) {
+            out.push(("real:nak".into(), a.clone()));
+            if v5 {
+                // ... and the same NAK with the poll field forged
+                for p in [(own + 1) as u8, 127] {
+                    let mut f = a.clone();
+                    f[2] = p;
+                    out.push((format!("real:nak-poll{p}"), f));
+                }
+            }
+        }
+    }
+
+    // --- (8) datagrams that ARE authentic (must be decided so by the oracle, not by label) ------------
+    {
+        let mut srv = mk_server(rig.keyset.clone(), true);
+        if let Some(a) = serve(&mut srv, &x.req) {
+            out.push(("auth:real-deny".into(), a));
+        }
+        for code in codes {
+            if let Some(p) = kiss_variant(rig, &pre, code, own) {
+                let mut d = p.clone();
+                d.extend(authenticator(&*rig.s2c, &p, &[]));
+                out.push((format!("auth:kiss-{code}"), d));
+            }
+        }
+        // cookies in all three positions: only the encrypted ones may be stored
+        let cx = ef(v5, T_COOKIE, &[0xC1; 40], 16);
+        let cy1 = ef(v5, T_COOKIE, &[0xC2; 40], 0);
+        let cy2 = ef(v5, T_COOKIE, &[0xC3; 64], 0);
+        let cz = ef(v5, T_COOKIE, &[0xC4; 40], 28);
+        let mut p = pre.clone();
+        p.extend(&cx);
+        let mut ptt = cy1.clone();
+        ptt.extend(&cy2);
+        let mut d = p.clone();
+        d.extend(authenticator(&*rig.s2c, &p, &ptt));
+        d.extend(&cz);
+        out.push(("auth:cookies-in-3-positions".into(), d));
+        // uid only inside the encrypted part
+        let mut p = hdr.clone();
+        p.extend(&draft);
+        let mut ptt = ef(v5, T_UID, &uid, 0);
+        ptt.extend(&pt);
+        let mut d = p.clone();
+        d.extend(authenticator(&*rig.s2c, &p, &ptt));
+        out.push(("auth:uid-encrypted".into(), d));
+        // genuine answer + unauthenticated suffixes
+        for n in [1usize, 2, 3, 4, 8, 16, 20, 24, 25, 28, 32] {
+            let mut d = gen_.clone();
+            d.resize(gen_.len() + n, 0);
+            out.push((format!("auth:extend-zeros-{n}"), d));
+        }
+        let mut d = gen_.clone();
+        d.extend(&cz);
+        out.push(("auth:extend-cookie".into(), d));
+        let mut d = gen_.clone();
+        d.extend(ef(v5, T_UID, &wrong_uid, 28));
+        out.push(("auth:extend-wrong-uid".into(), d));
+        // the other protocol version's framing, correctly keyed and bound
+        let mut p = if v5 {
+            hdr4(0, 4, 4, 2, own as u8, [0; 4], [0; 8], id8)
+        } else {
+            let mut h = hdr5(0, 4, 2, own as u8, 1, [7; 8], id8);
+            h.extend(ef5(T_DRAFT, DRAFT));
+            h
+        };
+        p.extend(ef(!v5, T_UID, &uid, 16));
+        let mut d = p.clone();
+        d.extend(authenticator(&*rig.s2c, &p, &pt));
+        out.push(("auth:other-version-framing".into(), d));
+    }
+    out
+}
+
+// ------------------------------------------------------------------------- judging one injection
+struct Verdict {
+    auth: bool,
+    changed: bool,
+    /// (class, what) of violations
+    violations: Vec<(String, String)>,
+    obs: String,
+}
+
+fn fifo_push(before: &[Vec<u8>], add: &[Vec<u8>]) -> Vec<Vec<u8>> {
+    let mut v: Vec<Vec<u8>> = before.to_vec();
+    for c in add {
+        v.push(c.clone());
+        if v.len() > 8 {
+            v.remove(0);
+        }
+    }
+    v
+}
+
+fn inject(rig: &mut Rig, before: &Key, desc: &str, d: &[u8]) -> Verdict {
+    let pend = live(rig, before);
+    let auth = authentic(rig, d, pend.as_ref());
+    let n0 = rig.log_len();
+    let acts = match common::catch(|| rig.incoming(d)) {
+        Ok(a) => a,
+        Err(e) => {
+            return Verdict {
+                auth: auth.is_some(),
+                changed: true,
+                violations: vec![("C07:panic".into(), format!("handle_incoming panicked on {desc}: {e}"))],
+                obs: format!("panic {e}"),
+            };
+        }
+    };
+    let after = rig.key();
+    let log = rig.log_from(n0);
+    let fields = diff(before, &after);
+    let changed = !acts.is_empty() || !log.is_empty() || !fields.is_empty();
+    let mut violations = Vec::new();
+    let obs = format!("auth={} actions={acts:?} controller={log:?} changed_fields={fields:?}", auth.is_some());
+    match &auth {
+        None => {
+            if changed {
+                let kind = if acts.iter().any(|a| a == "Demobilize") {
+                    "demobilize"
+                } else if acts.iter().any(|a| a == "Reset") {
+                    "reset"
+                } else if log.iter().any(|l| l.starts_with("meas")) {
+                    "measurement"
+                } else if fields.contains(&"cookies") || fields.contains(&"ring") {
+                    "cookie"
+                } else if fields.contains(&"remote_min_poll") || fields.contains(&"last_poll") {
+                    "poll-rate"
+                } else if fields.contains(&"version") {
+                    "version"
+                } else {
+                    "state"
+                };
+                // how far the datagram got cryptographically (computed by the harness)
+                let shape = if !open_all(&*rig.s2c, d).is_empty() {
+                    "unbound"
+                } else if walk(d, 48).0.iter().any(|f| f.ty == T_AUTH) {
+                    "badauth"
+                } else {
+                    "noauth"
+                };
+                let v = if rig.cfg.v5() { "v5" } else { "v4" };
+                violations.push((
+                    format!("C07:{v}-{shape}-{kind}"),
+                    format!("datagram `{desc}` is not authenticated+bound to the pending request, yet: {obs}"),
+                ));
+            }
+        }
+        Some(a) => {
+            let b = before.cookies.clone().unwrap_or_default();
+            let got = after.cookies.clone().unwrap_or_default();
+            let accepted = log.iter().any(|l| l.starts_with("meas"));
+            let want = match (&a.cookies, accepted) {
+                (Some(c), true) => fifo_push(&b, c),
+                _ => b.clone(),
+            };
+            if got != want {
+                violations.push((
+                    "C07:cookie-origin".into(),
+                    format!(
+                        "authentic datagram `{desc}`: stash afterwards holds {:?} (lengths), expected {:?} = previous + cookie fields of the encrypted part only; {obs}",
+                        got.iter().map(|c| c.len()).collect::<Vec<_>>(),
+                        want.iter().map(|c| c.len()).collect::<Vec<_>>()
+                    ),
+                ));
+            }
+        }
+    }
+    Verdict { auth: auth.is_some(), changed, violations, obs }
+}
+
+#[derive(Default)]
+struct Found {
+    /// (history length, state index, injection index, class, what, trace)
+    v: Vec<(usize, usize, usize, String, String, String)>,
+}
+
+fn category(desc: &str) -> &str {
+    let c = desc.split(':').next().unwrap_or(desc);
+    if c == "auth" || c == "s2c" || c == "real" {
+        // keep the sub label up to the first '-' for the interesting groups
+        let rest = &desc[c.len() + 1..];
+        let sub = rest.split(|ch: char| ch == '-' || ch.is_ascii_digit()).next().unwrap_or("");
+        return &desc[..c.len() + 1 + sub.len()];
+    }
+    c
+}
+
+/// Sweep the complete alphabet at the state reached by `word`.
+async fn sweep(ctx: &Ctx, found: &Mutex<Found>, scn: Scn, sidx: usize, word: &[Ev], all_bits: bool) {
+    let cfg = scn;
+    let Some(mut rig) = build(cfg, word).await else { return };
+    let mut before = rig.key();
+    let mut alpha = alphabet(&rig, &before, all_bits);
+    let n = alpha.len();
+    // not-authentic ones first, so that the twin comparison below sees a source that
+    // has absorbed all of them
+    let pend = live(&rig, &before);
+    let mut order: Vec<usize> = (0..n).collect();
+    let is_auth: Vec<bool> = alpha.iter().map(|(_, d)| authentic(&rig, d, pend.as_ref()).is_some()).collect();
+    order.sort_by_key(|i| is_auth[*i]);
+    let w = word_str(word);
+    let mut local: BTreeMap<String, u64> = BTreeMap::new();
+    let mut clean = true;
+    let mut twin_done = false;
+    let mut transitions = 0u64;
+    for (pos, &i) in order.iter().enumerate() {
+        if is_auth[i] && !twin_done {
+            twin_done = true;
+            if clean {
+                twin_check(ctx, found, cfg, sidx, word, &mut rig).await;
+                transitions += 2;
+                // the twin check delivered the genuine answer: start over from a fresh state
+                rig = build(cfg, word).await.expect("rebuild");
+                before = rig.key();
+                alpha = alphabet(&rig, &before, all_bits);
+            }
+        }
+        let (desc, d) = alpha[i].clone();
+        let v = inject(&mut rig, &before, &desc, &d);
+        transitions += 1;
+        let cat = category(&desc).to_string();
+        *local.entry(format!("inj.{cat}")).or_insert(0) += 1;
+        if v.auth {
+            *local.entry(format!("authentic.{}", if v.changed { "effect" } else { "ignored" })).or_insert(0) += 1;
+            if v.changed {
+                *local.entry(format!("authentic_effect.{cat}")).or_insert(0) += 1;
+            }
+        } else {
+            *local.entry(format!("not_authentic.{}", if v.changed { "EFFECT" } else { "ignored" })).or_insert(0) += 1;
+        }
+        if v.auth || v.changed {
+            ctx.distinct(common::hash_of(&(scn_name(cfg), &w, &desc)));
+        }
+        if !v.violations.is_empty() {
+            clean = false;
+            let mut f = found.lock().unwrap();
+            for (class, what) in v.violations {
+                f.v.push((word.len(), sidx, pos, class, format!("[{} after {w:?}] {what}", scn_name(cfg)), format!("{}|{w}|{desc}", scn_name(cfg))));
+            }
+        }
+        if sidx == 1 && (v.auth || v.changed) {
+            ctx.sample(format!("{} after {w}: {desc} -> {}", scn_name(cfg), v.obs));
+        }
+        if v.changed {
+            // the state was consumed: rebuild it (fresh identifiers -> fresh datagrams)
+            rig = build(cfg, word).await.expect("rebuild");
+            before = rig.key();
+            alpha = alphabet(&rig, &before, all_bits);
+            debug_assert_eq!(alpha.len(), n);
+        }
+    }
+    ctx.add("transitions", transitions);
+    ctx.add("evaluations", n as u64);
+    for (k, v) in local {
+        ctx.add(&k, v);
+    }
+}
+
+/// After absorbing every not-authentic datagram, the genuine answer must still have
+/// exactly the effect it has on an untouched twin (identifiers masked).
+async fn twin_check(ctx: &Ctx, found: &Mutex<Found>, cfg: Scn, sidx: usize, word: &[Ev], rig: &mut Rig) {
+    let k = rig.key();
+    let Some(x) = live(rig, &k) else { return };
+    if x.delivered {
+        return;
+    }
+    let Some(g) = x.genuine else { return };
+    let n0 = rig.log_len();
+    let acts = rig.incoming(&g);
+    let a = (masked(rig, &rig.key()), acts, rig.log_from(n0));
+    let Some(mut twin) = build(cfg, word).await else { return };
+    let tk = twin.key();
+    let Some(tx) = live(&twin, &tk) else { return };
+    let Some(tg) = tx.genuine else { return };
+    let n0 = twin.log_len();
+    let acts = twin.incoming(&tg);
+    let b = (masked(&twin, &twin.key()), acts, twin.log_from(n0));
+    ctx.inc("twin_checks");
+    if a.2.iter().any(|l| l.starts_with("meas")) {
+        ctx.inc("twin_genuine_accepted");
+    }
+    if a != b {
+        let w = word_str(word);
+        found.lock().unwrap().v.push((
+            word.len(),
+            sidx,
+            usize::MAX,
+            "C07:latent-effect".into(),
+            format!("[{} after {w:?}] after the not-authentic datagrams the genuine answer gives {a:?}, on an untouched twin {b:?}", scn_name(cfg)),
+            format!("{}|{w}|twin", scn_name(cfg)),
+        ));
+    }
+}
+
+/// All distinct states (by masked key) reachable with words of length <= depth, BFS.
+fn explore(cfg: Scn, depth: usize) -> (Vec<Vec<Ev>>, u64, bool) {
+    let mut seen: HashSet<Masked> = HashSet::new();
+    let mut states: Vec<Vec<Ev>> = Vec::new();
+    let mut frontier: Vec<Vec<Ev>> = vec![vec![]];
+    let mut transitions = 0u64;
+    {
+        let rig = super::block_on_paused(build(cfg, &[])).unwrap();
+        seen.insert(masked(&rig, &rig.key()));
+        states.push(vec![]);
+    }
+    let mut fixpoint = false;
+    for _ in 0..depth {
+        let mut next = Vec::new();
+        for w in &frontier {
+            for e in EVS {
+                let mut w2 = w.clone();
+                w2.push(e);
+                let r = super::block_on_paused(build(cfg, &w2));
+                let Some(rig) = r else { continue };
+                transitions += 1;
+                if seen.insert(masked(&rig, &rig.key())) {
+                    states.push(w2.clone());
+                    if rig.terminal.is_none() {
+                        next.push(w2);
+                    }
+                }
+            }
+        }
+        frontier = next;
+        if frontier.is_empty() {
+            fixpoint = true;
+            break;
+        }
+    }
+    (states, transitions, fixpoint)
+}
+
+fn replay(ctx: &Ctx, trace: &str) -> String {
+    let parts: Vec<&str> = trace.splitn(3, '|').collect();
+    if parts.len() != 3 {
+        return format!("bad trace {trace:?}");
+    }
+    let (Some(cfg), Some(word)) = (parse_scn(parts[0]), parse_word(parts[1])) else {
+        return format!("bad trace {trace:?}");
+    };
+    let desc = parts[2].to_string();
+    super::block_on_paused(async {
+        let found = Mutex::new(Found::default());
+        let Some(mut rig) = build(cfg, &word).await else { return "history not executable".to_string() };
+        let before = rig.key();
+        if desc == "twin" {
+            let alpha = alphabet(&rig, &before, true);
+            let pend = live(&rig, &before);
+            for (de, d) in &alpha {
+                if authentic(&rig, d, pend.as_ref()).is_none() {
+                    inject(&mut rig, &before, de, d);
+                }
+            }
+            twin_check(ctx, &found, cfg, 0, &word, &mut rig).await;
+            let f = found.lock().unwrap();
+            for v in &f.v {
+                ctx.violation(&v.3, v.4.clone(), v.5.clone());
+            }
+            return format!("twin violations={}", f.v.len());
+        }
+        let alpha = alphabet(&rig, &before, true);
+        let Some((_, d)) = alpha.iter().find(|(de, _)| *de == desc) else {
+            return format!("descriptor {desc:?} not in the alphabet of this state");
+        };
+        let v = inject(&mut rig, &before, &desc, d);
+        for (class, what) in &v.violations {
+            ctx.violation(class, what.clone(), trace.to_string());
+        }
+        format!("len={} {}", d.len(), v.obs)
+    })
+}
+
+#[test]
+fn check() {
+    let ctx = Ctx::new("C07");
+    if let Some(t) = common::replay_trace() {
+        let a = replay(&ctx, &t);
+        let b = replay(&ctx, &t);
+        common::report_replay("C07", &a, &b, ctx.violation_count() > 0);
+        return;
+    }
+    let quick = ctx.quick();
+    let depth = if quick { 5 } else { 10 };
+    ctx.rule(&format!(
+        "states = every word over {{T timer, G genuine answer, A advance 6 s, R authenticated RATE}} of length <= {depth}, \
+         deduplicated on the masked probe key, for NTS sources negotiated to NTPv4 / NTPv5 with AES-SIV-CMAC-256 / -512 keys; \
+         at each state the whole injection alphabet (see `alphabet`: 2885 v4 headers + 3074 v5 headers x uid placement x id match, \
+         replays, re-keyed answers, every single-bit flip and every truncation of the real server's answer, wrong-key \
+         authenticators, correctly keyed but unbound datagrams, cross-session answers and NAKs of the real server, authentic \
+         variants) is delivered. distinct non-trivial = (config, state, datagram) that is authentic or had any effect."
+    ));
+    ctx.assume("AES-SIV (crate's Cipher::decrypt) is a sound AEAD: it is used by the harness-side authenticity predicate");
+    ctx.assume("NTS sources only exist with ProtocolVersion V4 or V5 (the key exchange result maps to exactly these two), so V4UpgradingToV5/UpgradedToV5 NTS sources are not explored");
+    ctx.assume("a datagram is 'bound to the pending request' iff a request is outstanding and inside its 5 s window, bytes 24..32 equal the request's origin timestamp / client cookie and the request's unique identifier occurs in the authenticated or encrypted part");
+    let mut scns: Vec<Scn> = Vec::new();
+    for fill in if quick { vec![8usize] } else { vec![8usize, 2] } {
+        for k512 in [false, true] {
+            for pv in [ProtocolVersion::V4, ProtocolVersion::V5] {
+                scns.push((Cfg { pv, k512 }, fill));
+            }
+        }
+    }
+    let mut work: Vec<(Scn, usize, Vec<Ev>)> = Vec::new();
+    for scn in &scns {
+        let (states, tr, fix) = explore(*scn, depth);
+        ctx.add("states", states.len() as u64);
+        ctx.add("transitions", tr);
+        ctx.add(&format!("states.{}", scn_name(*scn)), states.len() as u64);
+        if fix {
+            ctx.note(&format!("fixpoint.{}", scn_name(*scn)), "state exploration reached a fixpoint");
+        }
+        for (i, w) in states.into_iter().enumerate() {
+            work.push((*scn, i, w));
+        }
+    }
+    // shortest histories first, one history length after the other
+    work.sort_by_key(|(c, i, w)| (w.len(), *i, scn_name(*c)));
+    let found = Mutex::new(Found::default());
+    let mut done_len = None;
+    for len in 0..=depth {
+        let level: Vec<&(Scn, usize, Vec<Ev>)> = work.iter().filter(|(_, _, w)| w.len() == len).collect();
+        if level.is_empty() {
+            continue;
+        }
+        if len > 3 && ctx.over_budget() {
+            ctx.cap_hit(&format!(
+                "states reached by histories of length {len}..={depth} not swept (wall budget); all states of histories <= {} swept completely",
+                len - 1
+            ));
+            break;
+        }
+        common::par_for(level.len() as u64, 1, |j| {
+            let (scn, sidx, word) = level[j as usize];
+            super::block_on_paused(sweep(&ctx, &found, *scn, *sidx, word, true));
+        });
+        ctx.add("states_swept", level.len() as u64);
+        done_len = Some(len);
+    }
+    ctx.set("history_length_swept", done_len.unwrap_or(0) as u64);
+    let mut f = found.into_inner().unwrap();
+    f.v.sort();
+    for (_, _, _, class, what, trace) in &f.v {
+        ctx.violation(class, what.clone(), trace.clone());
+    }
+    ctx.exhaustive(true);
+    ctx.finish();
+}
